@@ -11,12 +11,12 @@ def C04():
     from contracts.replay_pagination import replay_assign_pages
     return Property(
         "C04",
-        units=[ContractUnit(AssignPages())] + _strategy_units(),
+        units=[ContractUnit(AssignPages())] + _strategy_units() + _budget_units(),
         level="proof",
         technique="loop invariant + postconditions on the real AST of PageBreakCalculator._assign_pages; the three paginate() strategies forward "
                   "page_by / subline_by / new_page (SublineStrategy: new_page=True) and cut pages as the intervals; VCs by z3/cvc5",
         trusted_base=[SOLVERS, ENGINE, POLARS],
-        assumptions=["str() injective on non-null group keys of one dtype (flags computed in calculate_row_metadata)"],
+        assumptions=["str() injective on non-null group keys of one dtype (the flag computation compares str(value))"],
         replayers={"pagination/core.py::PageBreakCalculator._assign_pages": replay_assign_pages},
         design_ref="4/C04, A1",
     )
@@ -231,6 +231,11 @@ def C01():
         design_ref="4/C01, A14")
 
 
+def _budget_units():
+    from contracts.budget import UNITS, LEMMAS
+    return [ContractUnit(u) for u in UNITS] + LEMMAS
+
+
 def _strategy_units():
     from contracts.strategies import UNITS, LEMMAS
     return [ContractUnit(u) for u in UNITS] + LEMMAS
@@ -360,7 +365,25 @@ def C17():
         replayers={}, design_ref="4/C17, A20")
 
 
-PROPERTIES = {"C17": C17, "C11": C11, "C20": C20, "C13": C13, "C01": C01, "C02": C02, "C05": C05, "C07": C07, "C09": C09, "C14": C14, "C15": C15, "C18": C18, "C04": C04, "C06": C06, "C08": C08, "C10": C10, "C12": C12, "C16": C16, "C19": C19}
+def C03():
+    from contracts.pagination_core import AssignPages
+    from contracts.strwidth import GetStringWidth
+    from contracts.replay_pagination import replay_assign_pages
+    return Property(
+        "C03", units=_budget_units() + [ContractUnit(AssignPages()), ContractUnit(GetStringWidth())] + _strategy_units(), level="proof",
+        technique="budget inequalities carried by contracts on the real code: reserved rows = [subline] + #headers with text + [footnote] + [source] "
+                  "(counting invariant); per row data_rows >= 1 and >= int(W/width)+1 >= ceil(W/width) for every displayed cell at that cell's own font and "
+                  "size (column-loop invariant with ghost displayed-column count); total = data + page_by heading rows; _assign_pages keeps every page's "
+                  "sum within max(1, nrow - reserved) or to a single row; composition lemmas",
+        trusted_base=[SOLVERS, ENGINE, POLARS, "W = get_string_width is the line-width oracle the property names; floats as reals (L3)"],
+        assumptions=["rows RENDERED per page for column headers, page-top / continuation group headings and table-rendered footnote/source "
+                     "(PageRenderer.render, _render_column_headers) are not yet under contract: the comparison 'rendered <= reserved' per component is "
+                     "open in this check (design section 5 lists the default-header and continuation-heading findings to be encoded there)",
+                     "one column width per displayed column at the call site (_encode_body_section) is assumed here"],
+        replayers={"pagination/core.py::PageBreakCalculator._assign_pages": replay_assign_pages}, design_ref="4/C03, A2-A3")
+
+
+PROPERTIES = {"C03": C03, "C17": C17, "C11": C11, "C20": C20, "C13": C13, "C01": C01, "C02": C02, "C05": C05, "C07": C07, "C09": C09, "C14": C14, "C15": C15, "C18": C18, "C04": C04, "C06": C06, "C08": C08, "C10": C10, "C12": C12, "C16": C16, "C19": C19}
 
 # ---- texts for MANIFEST.json (tools/gen_manifest.py) ------------------------------------------------------
 MANIFEST_TEXT = {
@@ -396,6 +419,14 @@ MANIFEST_TEXT = {
                 "page-relative start as row_offset, and the emitters write every such field (incl. border width and colour) into the output.",
         "note": "The binding is proved relative to the page's attribute object; its relation to the ORIGINAL row index across page breaks and the "
                 "column slicing after page_by/subline_by removal are named as not yet under contract.",
+    },
+    "C03": {
+        "text": "Proved on the real code for any table size: the per-page reservation counts exactly the subline heading, the headers that have "
+                "text, the footnote and the source; every row's data_rows is at least the line count of each displayed cell measured at that cell's "
+                "own font and size against its own column width (and at least 1); totals add page_by heading rows only at group starts; the greedy "
+                "assignment keeps each page's total within nrow minus the reservation unless the page is a single row.",
+        "note": "The rendered-vs-reserved comparison for headers / continuation headings / table-rendered components depends on renderer carriers "
+                "not yet under contract; it is listed as open, not claimed.",
     },
     "C04": {
         "text": "Unbounded proof on the real AST of PageBreakCalculator._assign_pages: a 14-clause loop invariant (ghost prefix sums and "
